@@ -2,7 +2,10 @@
 RULE = ("every element of RecvSplit.tla's grid is one TLC state: (len 0..40 x seg -2..42) at scale 1 and at real sizes "
         "(scales up to 1638, i.e. len up to 65520, sizes around the multiples), plus abstract ancillary buffers (sequences of "
         "control messages cut at every byte offset); TLC checks the machine against the statement on each; each vector is run "
-        "on the real deliverSegments / parseRecvCmsg; distinct = distinct vectors")
+        "on the real deliverSegments / parseRecvCmsg; distinct = distinct vectors. Loop: histories of 1..3 recvmmsg rounds over "
+        "1-2 reused batch slots (each datagram coalesced with size S or plain, shorter / equal / longer than an S) are folded "
+        "through the slot-state machine of RecvSplit.tla (ancillary buffer + msg_controllen left by the previous round) and "
+        "played through the real StdConn.ListenOut on loopback sockets with UDP_GRO")
 ASSUMPTIONS = [
     "an empty datagram with a positive coalescing size may be delivered as one empty piece or as no piece (the statement "
     "does not say); every other outcome is determined by the statement",
@@ -11,6 +14,13 @@ ASSUMPTIONS = [
     "placing the buffer against inaccessible pages on either side (a fault is a mismatch); it is not a proof for all buffers",
     "the kernel delivers at most one UDP_GRO control message; buffers with several are not in the lattice",
     "control message geometry is that of 64-bit Linux (16-byte header, 8-byte alignment)",
+    "receive loop: the kernel interface is modelled as recvmmsg/udp_cmsg_recv behave (a datagram without coalescing size comes "
+    "back with msg_controllen 0 and an untouched ancillary buffer; a size is only handed over if the msg_controllen found leaves "
+    "room); the harness probes both facts on its own socket before it trusts the loop stage. Rounds are imposed by parking the "
+    "loop in its flush callback while the next round's datagrams are queued (rmem_alloc observed); the verdict compares the "
+    "piece stream datagram by datagram and does not depend on how the kernel really cut the rounds; one connection plays 40 "
+    "histories in a row (opening a UDP_GRO socket costs milliseconds), so a history may start on slots a previous one used",
+    "receive loop: only IPv4 loopback, Batch = 4, at most 2 slots filled per round, one reader goroutine per socket",
 ]
 
 
@@ -53,7 +63,11 @@ META = {
             'sequence the statement admits (and that the rule is scale-invariant). The harness runs each grid point on the real '
             'function with position-dependent payload bytes and compares piece lengths, contents and sender. Where the size '
             'comes from is specified over abstract control-message sequences cut at every offset; the harness lays them out as '
-            'real bytes against guard pages so that an access outside the buffer faults.',
+            'real bytes against guard pages so that an access outside the buffer faults. The receive loop is specified as a '
+            'machine over the reused batch slots (what a round leaves in a slot\'s ancillary buffer and msg_controllen) with the '
+            'kernel\'s write-back rules; TLC checks that every datagram of every history is delivered as the statement says for '
+            'the size of ITS round and that the link separates the wrong loop orders; the histories are played through the real '
+            'ListenOut over real UDP_GRO loopback sockets.',
     'design_ref': '3.9 C27',
     'note': 'The grid is finite (the rule depends only on len, seg and their quotient/remainder); arbitrary ancillary bytes are '
             'sampled, not enumerated.',
